@@ -51,6 +51,7 @@ def run(ck: Check, prog: Program) -> None:
     ck.functions.add(rf.qualname)
     c06._field_guards(ck, mprog, rf)
     c06._container_guard(ck, mprog, rf)
+    c06.version_exact(ck, mprog, ('pjrpc.common.v20.Request.from_json',))
     # values taken from the request document are never hashed while they can still be arrays / objects (TypeError out of dispatch)
     for q_ in ('pjrpc.common.v20' + '.Request.from_json', 'pjrpc.common.v20' + '.BatchRequest.from_json'):
         hf_ = mprog.func(q_)
